@@ -39,7 +39,7 @@ def hints_oracle(c):
 def main(tier, seed):
     n = {"quick": 500, "thorough": 8000}[tier]
     return storecheck.run("C12", tier, seed, PROFILE, n, corpus=corpus(), maxlen=20, extra_oracle=hints_oracle,
-                          relevant=lambda o: o[0] in ("get", "merge", "reopen", "drophints", "dump"),
+                          relevant=lambda o: o[0] in ("get", "merge", "reopen", "drophints", "dump"), big_keys={"quick": 4, "thorough": 30}[tier],
                           rule="Histories with merges (also rolling over into several outputs); `drophints` closes the store, "
                                "deletes every hint file and reopens; every key is read afterwards and the recovered index is "
-                               "compared with the one recovered with hints.")
+                               "compared with the one recovered with hints. Plus implementation-only histories with one key of 40-200 KB.")
